@@ -26,6 +26,7 @@
 #include "options_for_QT.h"
 #include "punctuators.h"
 #include "token_is_within_trailing_return.h"
+#include "unc_ctype.h"
 
 #ifdef WIN32
 #include <algorithm>                   // to get max
@@ -3631,14 +3632,26 @@ void space_text()
             if (  tmp->IsNotNullChunk()
                && tmp->Len() > 0)
             {
-               bool kw1 = CharTable::IsKw2(pc->GetStr()[pc->Len() - 1]);
-               bool kw2 = CharTable::IsKw1(next->GetStr()[0]);
+               bool   kw1   = CharTable::IsKw2(pc->GetStr()[pc->Len() - 1]);
+               bool   kw2   = CharTable::IsKw1(next->GetStr()[0]);
+               size_t last  = pc->GetStr()[pc->Len() - 1];
+               size_t first = next->GetStr()[0];
 
                if (  kw1
-                  && kw2)
+                  && (  kw2
+                     || unc_isdigit(first)))
                {
-                  // back-to-back words need a space
+                  // back-to-back words need a space, so does a word followed by a number
                   LOG_FMT(LSPACE, "%s(%d): back-to-back words need a space: pc->Text() '%s', next->Text() '%s'\n",
+                          __func__, __LINE__, pc->Text(), next->Text());
+                  pc->SetFlagBits(PCF_FORCE_SPACE);
+               }
+               else if (  last == '/'
+                       && (  first == '/'
+                          || first == '*'))
+               {
+                  // '/' followed by '*' or '/' would open a comment
+                  LOG_FMT(LSPACE, "%s(%d): would tokenize differently: pc->Text() '%s', next->Text() '%s'\n",
                           __func__, __LINE__, pc->Text(), next->Text());
                   pc->SetFlagBits(PCF_FORCE_SPACE);
                }
